@@ -24,7 +24,7 @@ import (
 )
 
 type c18Case struct {
-	Cfg string   `json:"cfg"` // "", "lim1" (server advertises MAX_CONCURRENT_STREAMS=1) or "strict-lim1" (… and Transport.StrictMaxConcurrentStreams)
+	Cfg string   `json:"cfg"` // "", "lim1" (server advertises MAX_CONCURRENT_STREAMS=1) "strict-lim1" / "strict-lim2" (… with Transport.StrictMaxConcurrentStreams and limit 1 / 2)
 	Ev  []string `json:"ev"`
 }
 
@@ -259,7 +259,7 @@ func c18BodyClass(b string) string {
 // settle: quiescence, then enough fake time for the Transport's retry back-off
 // (1 s + 10 % jitter for the second attempt), then quiescence again. Newly
 // dialled connections are greeted with SETTINGS right away.
-func (m *c18Mon) settle(lim1 bool) {
+func (m *c18Mon) settle(lim uint32) {
 	for round := 0; round < 4; round++ {
 		m.observe(m.h.settle())
 		greeted := false
@@ -268,8 +268,8 @@ func (m *c18Mon) settle(lim1 bool) {
 			if !cm.greeted && c.usable() {
 				cm.greeted = true
 				greeted = true
-				if lim1 {
-					c.settings(Setting{ID: SettingMaxConcurrentStreams, Val: 1})
+				if lim > 0 {
+					c.settings(Setting{ID: SettingMaxConcurrentStreams, Val: lim})
 				} else {
 					c.settings()
 				}
@@ -288,8 +288,13 @@ func c18Exec(t testing.TB, w *vx.W, cs c18Case) {
 	h := c17cliNew(t, strings.HasPrefix(cs.Cfg, "strict"))
 	defer h.finish()
 	m := &c18Mon{w: w, h: h, cm: map[int]*c18ConnMon{}, rm: map[int]*c18ReqMon{}, feat: map[string]bool{}}
-	lim1 := strings.HasSuffix(cs.Cfg, "lim1")
-	m.lim1 = lim1
+	lim := uint32(0)
+	if strings.HasSuffix(cs.Cfg, "lim1") {
+		lim = 1
+	} else if strings.HasSuffix(cs.Cfg, "lim2") {
+		lim = 2
+	}
+	m.lim1 = lim > 0
 	for _, ev := range cs.Ev {
 		conns := h.connList()
 		connOf := func(b byte) *c17Conn {
@@ -369,7 +374,7 @@ func c18Exec(t testing.TB, w *vx.W, cs c18Case) {
 		default:
 			panic("unknown event " + ev)
 		}
-		m.settle(lim1)
+		m.settle(lim)
 		m.quiescent(false)
 		if w.Failed() {
 			return
@@ -574,6 +579,7 @@ func TestVerif_C18(t *testing.T) {
 		run("seed-goaway-then-retry-conn", "", sd, so, []string{"Q", "Qr", "Ga1n"})
 		run("seed-error-goaway-first-stream", "", sd, so, []string{"Qr", "Qo", "Ga0e"})
 		run("seed-lim1-two-conns", "lim1", sd, so, []string{"Q", "Qr"})
+		run("seed-strict-lim2-third-waiting", "strict-lim2", sd, so, []string{"Q", "Qr", "Q"})
 		run("core", "", depth, o, nil)
 		run("strict-lim1", "strict-lim1", depth, o, nil)
 		run("lim1", "lim1", depth-1, o, nil)
